@@ -4,7 +4,7 @@
    gp t c i p = the correction of product p for input i that data channel c receives at dump t
    (through p's channel map);  factor = what calc_correction_per_corrprod computes for one corrprod. *)
 From Coq Require Import ZArith QArith Qabs Qcanon List Bool String Permutation.
-From KV Require Import Base.Sx Gen.Generated Model.Applycal Proofs.ApplycalP.
+From KV Require Import Base.Sx Gen.Generated Model.Applycal Proofs.ApplycalP Model.ApplycalSol Proofs.ApplycalSolP Proofs.ApplycalElemP Proofs.ApplycalHoldP.
 Import ListNotations.
 
 (* The flag raised by apply_flags_correction (constant name regenerated from applycal.py, value from flags.py). *)
@@ -131,3 +131,208 @@ Theorem C13_subset_loaded_refuted : exists (evs : list (Z * bool)) (T a b : Z),
   (0 <= a < b)%Z /\ (b <= T)%Z /\ gain_has_valid 0 T evs = true /\ gain_has_valid a b evs = false.
 Proof. exact subset_loaded_refuted. Qed.
 Print Assumptions C13_subset_loaded_refuted.
+
+(* ================================================================== from the SOLUTIONS to vis / weights / flags
+   Model/ApplycalSol.v: a solution is NaN, infinite or a number (zero included); gain_corr_at / bandpass_corr_at /
+   delay_corr_at are calc_gain_correction / calc_bandpass_correction / calc_delay_correction for one input (and
+   channel); `mix` and `cis` evaluate what is not rational (see the model file), the theorems hold for every such
+   pair (mix_ok / cis_ok where stated).  np.reciprocal is regenerated from the source (applycal_recip_plain). *)
+
+(* reciprocal(z) is NaN exactly for NaN and for zero *)
+Theorem C13_reciprocal_nan_iff : forall z,
+  Cinv z = CNaN <-> z = CNaN \/ exists a b, z = CFin a b /\ norm2 a b = 0%Qc.
+Proof. exact Cinv_nan_iff. Qed.
+Print Assumptions C13_reciprocal_nan_iff.
+
+(* no finite solution (missing, NaN, inf): the gain correction is INVALID at every dump *)
+Theorem C13_gain_no_valid_solution : forall mix cis evs d,
+  (forall e, In e evs -> sol_finite (snd e) = false) -> gain_corr_at mix cis evs d = CNaN.
+Proof. exact gain_no_valid. Qed.
+Print Assumptions C13_gain_no_valid_solution.
+
+(* NaN / infinite solutions take no part in the interpolation *)
+Theorem C13_gain_ignores_invalid : forall mix cis evs d,
+  gain_corr_at mix cis evs d = gain_corr_at mix cis (filter (fun e => sol_finite (snd e)) evs) d.
+Proof. exact gain_ignores_invalid. Qed.
+Print Assumptions C13_gain_ignores_invalid.
+
+(* all finite solutions of the input equal a+bi: the correction is reciprocal(a+bi) at every dump (NaN for zero) *)
+Theorem C13_gain_constant_inverted : forall mix cis evs d a b,
+  (exists x, In (x, SFin a b) evs) ->
+  (forall e, In e evs -> sol_finite (snd e) = true -> snd e = SFin a b) ->
+  gain_corr_at mix cis evs d = Cinv (CFin a b).
+Proof. exact gain_constant. Qed.
+Print Assumptions C13_gain_constant_inverted.
+
+(* a solution AT dump d is inverted exactly, whatever the other solutions are; a zero one gives INVALID *)
+Theorem C13_gain_at_solution : forall mix cis evs lo d a b,
+  incr_evs lo evs -> In (d, SFin a b) evs -> gain_corr_at mix cis evs d = Cinv (CFin a b).
+Proof. exact gain_at_solution. Qed.
+Print Assumptions C13_gain_at_solution.
+
+Theorem C13_gain_zero_at_dump : forall mix cis evs lo d,
+  incr_evs lo evs -> In (d, SFin 0 0) evs -> gain_corr_at mix cis evs d = CNaN.
+Proof. exact gain_zero_at_dump. Qed.
+Print Assumptions C13_gain_zero_at_dump.
+
+(* one finite solution and no zero one: the correction is a non-zero number at EVERY dump (never invalidates) *)
+Theorem C13_gain_valid_everywhere : forall mix cis evs d,
+  mix_ok mix ->
+  (exists e, In e evs /\ sol_finite (snd e) = true) ->
+  (forall x a b, In (x, SFin a b) evs -> norm2 a b <> 0%Qc) ->
+  fin_nz (gain_corr_at mix cis evs d).
+Proof. exact gain_valid_everywhere. Qed.
+Print Assumptions C13_gain_valid_everywhere.
+
+(* the invalid-gain clause, from the solutions: a dead input (every finite gain solution exactly zero, or none
+   finite) leaves every visibility it takes part in as stored, zeroes the weight and raises postproc *)
+Theorem C13_dead_input_flagged : forall mix cis prods t c cp evs d w fl,
+  contributes prods t c cp (gain_corr_at mix cis evs (qz t)) ->
+  (forall e, In e evs -> sol_finite (snd e) = true -> snd e = SFin 0 0) ->
+  apply_vis d (factor prods t c cp) = d /\
+  apply_weights w (factor prods t c cp) = 0%Qc /\
+  apply_flags fl (factor prods t c cp) = Z.lor fl 128.
+Proof. exact dead_input_flagged. Qed.
+Print Assumptions C13_dead_input_flagged.
+
+(* bandpass: a data channel lining up with cal channel k gets reciprocal(solution[k]) ... *)
+Theorem C13_bandpass_at_channel : forall mix cis cal bp lo k f a b,
+  incr_q lo cal -> nth_error cal k = Some f -> nth_error bp k = Some (SFin a b) ->
+  bandpass_corr_at mix cis cal bp f = Cinv (CFin a b).
+Proof. exact bandpass_at_channel. Qed.
+Print Assumptions C13_bandpass_at_channel.
+
+(* ... so a zero channel is left as stored, weight zero, postproc *)
+Theorem C13_zero_bandpass_channel_flagged : forall mix cis prods t c cp cal bp lo k f d w fl,
+  contributes prods t c cp (bandpass_corr_at mix cis cal bp f) ->
+  incr_q lo cal -> nth_error cal k = Some f -> nth_error bp k = Some (SFin 0 0) ->
+  apply_vis d (factor prods t c cp) = d /\
+  apply_weights w (factor prods t c cp) = 0%Qc /\
+  apply_flags fl (factor prods t c cp) = Z.lor fl 128.
+Proof. exact zero_bandpass_channel_flagged. Qed.
+Print Assumptions C13_zero_bandpass_channel_flagged.
+
+(* no extrapolation beyond the valid cal channels, nothing from an all-invalid bandpass *)
+Theorem C13_bandpass_no_extrapolation : forall mix cis cal bp f,
+  (forall k c s, nth_error cal k = Some c -> nth_error bp k = Some s -> sol_finite s = true -> (f < c)%Q) \/
+  (forall k c s, nth_error cal k = Some c -> nth_error bp k = Some s -> sol_finite s = true -> (c < f)%Q) ->
+  bandpass_corr_at mix cis cal bp f = CNaN.
+Proof. exact bandpass_no_extrapolation. Qed.
+Print Assumptions C13_bandpass_no_extrapolation.
+
+Theorem C13_bandpass_all_invalid : forall mix cis cal bp f,
+  (forall s, In s bp -> sol_finite s = false) -> bandpass_corr_at mix cis cal bp f = CNaN.
+Proof. exact bandpass_all_invalid. Qed.
+Print Assumptions C13_bandpass_all_invalid.
+
+(* delays: a missing (NaN) or zero delay is the unit correction; a finite delay never changes a weight *)
+Theorem C13_delay_missing_is_unity : forall mix cis f, delay_corr_at mix cis SNaN f = Cone.
+Proof. exact delay_missing_is_unity. Qed.
+Print Assumptions C13_delay_missing_is_unity.
+
+Theorem C13_delay_keeps_weight : forall mix cis a b f w,
+  cis_ok cis -> apply_weights w (delay_corr_at mix cis (SFin a b) f) = w.
+Proof. exact delay_finite_keeps_weight. Qed.
+Print Assumptions C13_delay_keeps_weight.
+
+(* ================================================================== which of the requested products are applied
+   select_products skip reqs = the loop of calc_correction over the requested products (None = KeyError); a request
+   is usable when every input has a correction sensor.  Uses the regenerated applycal_missing_skips_product. *)
+
+(* lenient request ('all', 'default', a stream, bare types): exactly the usable requested products, each once, in
+   the order of first mention *)
+Theorem C13_selected_products : forall reqs,
+  consistent reqs -> select_products true reqs = Some (spec_selected reqs []).
+Proof. exact select_skip_spec. Qed.
+Print Assumptions C13_selected_products.
+
+Theorem C13_selected_has_every_usable : forall reqs q,
+  In q reqs -> usable q = true -> In (q_name q) (keys (spec_selected reqs [])).
+Proof. exact selected_has_usable. Qed.
+Print Assumptions C13_selected_has_every_usable.
+
+Theorem C13_selected_once : forall reqs, NoDup (keys (spec_selected reqs [])).
+Proof. exact selected_nodup. Qed.
+Print Assumptions C13_selected_once.
+
+(* a product without solutions does not affect the others, WHEREVER it stands in the request *)
+Theorem C13_missing_product_transparent : forall a m b,
+  usable m = false -> select_products true (a ++ m :: b) = select_products true (a ++ b).
+Proof. exact missing_product_transparent. Qed.
+Print Assumptions C13_missing_product_transparent.
+
+(* strict request (fully qualified names): all of them or KeyError *)
+Theorem C13_selected_strict : forall reqs,
+  consistent reqs -> forallb usable reqs = true -> select_products false reqs = Some (spec_selected reqs []).
+Proof. exact select_strict_spec. Qed.
+Print Assumptions C13_selected_strict.
+
+Theorem C13_strict_missing_raises : forall reqs,
+  forallb usable reqs = false -> select_products false reqs = None.
+Proof. exact select_strict_missing. Qed.
+Print Assumptions C13_strict_missing_raises.
+
+(* composition over the products actually applied = the product formula over the usable requested ones *)
+Theorem C13_applied_factor : forall reqs data sel t c cp,
+  consistent reqs -> select_products true reqs = Some sel ->
+  factor (make_products data (map snd sel)) t c cp =
+  Cprod (map (fun p => Cmul (gp t c (fst cp) p) (Cconj (gp t c (snd cp) p)))
+             (make_products data (map snd (spec_selected reqs [])))).
+Proof. exact applied_factor. Qed.
+Print Assumptions C13_applied_factor.
+
+(* ================================================================== the corrected arrays themselves
+   VisibilityDataV4._make_corrected: da.core.elemwise(kernel, stored, corrections) runs the kernel on matching
+   blocks.  For ANY chunking of time x channel and a stored array of the matching shape, every element of the
+   assembled result is kernel(stored element, factor): with C13_factor_is_product / C13_composition / C13_invalid
+   this is the first sentence of the property for vis (kernel = apply_vis), weights and flags. *)
+Theorem C13_corrected_pointwise : forall (A : Type) (kernel : A -> C -> A) (dflt : A) data prods ninputs cps tch cch,
+  shape_ok data (total tch) (total cch) (List.length cps) -> cps_ok ninputs cps ->
+  forall t c b, (t < total tch)%nat -> (c < total cch)%nat -> (b < List.length cps)%nat ->
+  nth b (nth c (nth t (assemble (corrected_block kernel data prods ninputs cps) tch cch) []) []) dflt
+  = kernel (nth b (nth c (nth t data []) []) dflt) (factor prods t c (nth b cps (0%nat, 0%nat))).
+Proof. exact @corrected_pointwise. Qed.
+Print Assumptions C13_corrected_pointwise.
+
+(* flags: nothing but the postproc bit can change, and no bit is ever cleared *)
+Theorem C13_flags_only_postproc : forall fl f n, n <> 7%Z -> Z.testbit (apply_flags fl f) n = Z.testbit fl n.
+Proof. exact apply_flags_other_bits. Qed.
+Print Assumptions C13_flags_only_postproc.
+
+Theorem C13_flags_never_cleared : forall fl f n, Z.testbit fl n = true -> Z.testbit (apply_flags fl f) n = true.
+Proof. exact apply_flags_monotone. Qed.
+Print Assumptions C13_flags_never_cleared.
+
+(* a unit factor changes neither visibility nor weight *)
+Theorem C13_unit_factor : forall d w, apply_vis d Cone = d /\ apply_weights w Cone = w.
+Proof. intros; split; [apply apply_vis_one | apply apply_weights_one]. Qed.
+Print Assumptions C13_unit_factor.
+
+(* correcting with f1 and then with f2 (numbers, non-zero) = correcting once with f1 * f2: vis, weights, flags *)
+Theorem C13_two_stage : forall d w fl a b c e,
+  norm2 a b <> 0%Qc -> norm2 c e <> 0%Qc ->
+  apply_vis (apply_vis d (CFin a b)) (CFin c e) = apply_vis d (Cmul (CFin a b) (CFin c e)) /\
+  apply_weights (apply_weights w (CFin a b)) (CFin c e) = apply_weights w (Cmul (CFin a b) (CFin c e)) /\
+  apply_flags (apply_flags fl (CFin a b)) (CFin c e) = apply_flags fl (Cmul (CFin a b) (CFin c e)).
+Proof. exact two_stage. Qed.
+Print Assumptions C13_two_stage.
+
+(* postproc raised by an invalid stage survives any later stage *)
+Theorem C13_invalid_stage_sticks : forall fl f1 f2, f1 = CNaN ->
+  Z.testbit (apply_flags (apply_flags fl f1) f2) 7 = true.
+Proof. exact invalid_stage_sticks. Qed.
+Print Assumptions C13_invalid_stage_sticks.
+
+(* ================================================================== hold-type products and the loaded dumps
+   K and B corrections are CategoricalData over the events the data set sees (Applycal.seen): dump t gets the
+   solution in force (ApplycalSol.in_force: the last one at or before t, the first one before that).  For a data
+   set holding dumps [a, b) of a stream with T dumps the solution in force at its dump t is the one in force at dump
+   a + t of the fully opened data set - for events in time order, provided it sees a solution at all (some solution
+   before dump b; otherwise katdal has no sensor value and raises).  Discharges the time axis of the guard of
+   C13_subset_loaded_partial for K / B; gain types do not have it (C13_subset_loaded_refuted). *)
+Theorem C13_hold_independent_of_loaded_dumps : forall (A : Type) (a b T t : Z),
+  (0 <= a)%Z -> (0 <= t)%Z -> (a + t < b)%Z -> (b <= T)%Z ->
+  forall (evs : list (Z * A)) lo, nondecr lo evs -> (exists x, In x evs /\ (fst x < b)%Z) ->
+  in_force (seen a b evs) t = in_force (seen 0 T evs) (a + t)%Z.
+Proof. exact @hold_independent_of_loaded_dumps. Qed.
+Print Assumptions C13_hold_independent_of_loaded_dumps.
